@@ -14,8 +14,25 @@ Patterns
     ro           every caller array (and the base of every view) has writeable=False
     alias        parameters of equal shape/dtype receive the same array object; a second
                  sub-case passes overlapping views of one buffer; equal grid objects are shared
+    list         every argument that is a sequence of integers (degrees, sizes, atnums, shape,
+                 sector tables, index lists: an integer ndarray, a tuple or list of ints, nested
+                 ones included) is handed over as a plain Python list (lists cannot be
+                 write-protected: a write-back is seen in the structural snapshot, which is why
+                 the builders also use values the library has to replace, e.g. degrees that are
+                 not tabulated)
+    int-array    the same arguments as integer ndarrays: sub-case `int64-ro` converts the
+                 outermost rectangular list to one int64 array and write-protects every integer
+                 array (a write-back of an *equal* value is caught, too); sub-case `int32`
+                 converts the innermost lists / re-types int64 arrays to writable int32 arrays
+                 (a write-back of a value that does not fit / of another dtype changes the bytes)
     cb-identity  every user callback returns (a view of) the array it received
     cb-cached    every user callback returns one cached constant array per result shape
+
+Parameter-level audit (`param_audit`, also `python -m harness.props.c20_registry --audit`): every
+public callable is watched with `sys.setprofile` while the entries run; for each parameter the
+audit records under which patterns an object *owned by the caller* (identity, not a library-made
+copy) arrived there, so that a parameter of array / list / dict type that no entry ever feeds with
+caller data shows up as a hole.
 """
 from __future__ import annotations
 
@@ -27,6 +44,7 @@ import os
 import re
 import shutil
 import signal
+import sys
 import tempfile
 import time
 import traceback
@@ -35,7 +53,7 @@ import zlib
 
 import numpy as np
 
-PATTERNS = ["rw", "ro", "alias", "cb-identity", "cb-cached"]
+PATTERNS = ["rw", "ro", "alias", "list", "int-array", "cb-identity", "cb-cached"]
 GRID_MODULES = [
     "angular", "atomgrid", "basegrid", "becke", "coulomb", "cubic", "hirshfeld", "molgrid",
     "ngrid", "ode", "onedgrid", "periodicgrid", "poisson", "robust_poisson", "rtransform", "utils",
@@ -116,6 +134,8 @@ class _State:
         self.aliased = []      # descriptions
         self.protect_cb = False
         self.flag_log = []     # (ndarray, original writeable)
+        self.converted = []    # descriptions of integer sequences re-typed by list / int-array
+        self.nslots = 0        # number of integer-sequence arguments
 
 
 def _walk(obj, path, st: _State, seen: set, in_obj=False, depth=0):
@@ -403,6 +423,112 @@ def _apply_alias(kwargs, st: _State):
 
 
 # ----------------------------------------------------------------------------
+# integer sequences: list / int-array kinds
+# ----------------------------------------------------------------------------
+def _is_pyint(x) -> bool:
+    return isinstance(x, (int, np.integer)) and not isinstance(x, (bool, np.bool_))
+
+
+def _intseq_depth(v, depth=0):
+    """Nesting depth (1 = flat) of a non-empty list/tuple all of whose leaves are ints, or of an
+    integer ndarray; 0 if `v` is not a sequence of integers."""
+    if isinstance(v, np.ndarray):
+        return v.ndim if (v.dtype.kind in "iu" and v.ndim >= 1 and v.size > 0) else 0
+    if isinstance(v, (list, tuple)) and len(v) > 0 and depth < 4:
+        if all(_is_pyint(e) for e in v):
+            return 1
+        ds = [_intseq_depth(e, depth + 1) for e in v]
+        if all(d > 0 for d in ds):
+            return 1 + max(ds)
+    return 0
+
+
+def _to_pylist(v):
+    if isinstance(v, np.ndarray):
+        return v.tolist()
+    if isinstance(v, (list, tuple)):
+        return [_to_pylist(e) for e in v]
+    return int(v)
+
+
+def _rectangular(v) -> bool:
+    try:
+        a = np.array(_to_pylist(v))
+    except ValueError:
+        return False
+    return a.dtype.kind in "iu"
+
+
+def _to_intarrays(v, dtype, outermost: bool):
+    """Lists/tuples of ints -> integer arrays: the outermost rectangular level (`outermost`) or
+    only the innermost flat lists (the enclosing lists stay lists)."""
+    if isinstance(v, np.ndarray):
+        return v if v.dtype == dtype else v.astype(dtype)
+    if all(_is_pyint(e) for e in v) or (outermost and _rectangular(v)):
+        return np.array(_to_pylist(v), dtype=dtype)
+    return [_to_intarrays(e, dtype, outermost) for e in v]
+
+
+def _changed_kind(a, b) -> bool:
+    if type(a) is not type(b):
+        return True
+    if isinstance(a, np.ndarray):
+        return a.dtype != b.dtype
+    if isinstance(a, list):
+        return any(_changed_kind(x, y) for x, y in zip(a, b))
+    return False
+
+
+def _apply_intseq(kwargs, st: _State):
+    """Re-type sequences of integers among the arguments (see the patterns `list` and `int-array`
+    in the module docstring): all of them, or — sub-case `<kind>@<i>` — only the i-th one (an API
+    that rejects one of them in that form must not hide what happens to the others).  Records what
+    was converted in st.converted and the number of integer sequences in st.nslots."""
+    ro_ids = {id(a) for a in st.always_ro}
+    kind, _, only = st.sub.partition("@")
+    only = int(only) if only else None
+    st.nslots = 0
+
+    def visit(parent, items, path, depth):
+        for k, v in items:
+            p = f"{path}[{k!r}]" if path else str(k)
+            if id(v) in ro_ids or isinstance(v, (str, bytes)):
+                continue
+            d = _intseq_depth(v)
+            if d:
+                slot = st.nslots
+                st.nslots += 1
+                if only is not None and slot != only:
+                    continue
+                if st.pattern == "list":
+                    new = _to_pylist(v)
+                elif kind == "int32":
+                    new = _to_intarrays(v, np.dtype(np.int32), outermost=False)
+                else:
+                    new = _to_intarrays(v, np.dtype(np.int64), outermost=True)
+                if new is not v and _changed_kind(v, new):
+                    parent[k] = new
+                    st.converted.append(f"{p}: {_kind_txt(v)} -> {_kind_txt(new)}")
+                continue
+            if depth < 3:
+                if isinstance(v, dict):
+                    visit(v, list(v.items()), p, depth + 1)
+                elif isinstance(v, list):
+                    visit(v, list(enumerate(v)), p, depth + 1)
+
+    visit(kwargs, list(kwargs.items()), "", 0)
+
+
+def _kind_txt(v) -> str:
+    if isinstance(v, np.ndarray):
+        return f"{v.dtype.str.lstrip('<|=')}{list(v.shape)}"
+    if isinstance(v, (list, tuple)):
+        inner = {_kind_txt(e) for e in v}
+        return f"{type(v).__name__}[{len(v)}] of {'/'.join(sorted(inner))}"
+    return type(v).__name__
+
+
+# ----------------------------------------------------------------------------
 # one case
 # ----------------------------------------------------------------------------
 class _Timeout(Exception):
@@ -426,7 +552,7 @@ def _lib_frame(tb) -> str:
 
 
 def _execute(ent: Entry, pattern: str, seed: int, sub: str = "same", protect: bool = True,
-             limit: float = 60.0):
+             limit: float = 60.0, audit=None):
     """-> dict(applicable, violations, sig, exc, nontrivial, readonly_exc)"""
     level = seed // LEVEL_BASE
     rng = _rng_for(ent.id, seed)
@@ -436,7 +562,7 @@ def _execute(ent: Entry, pattern: str, seed: int, sub: str = "same", protect: bo
     kwargs = _subst(dict(kwargs), "", st)
     has_cb = bool(st.callbacks)
     res = {"applicable": True, "violations": [], "sig": [], "exc": None, "nontrivial": False,
-           "readonly_exc": None, "aliased": [], "cb_calls": 0}
+           "readonly_exc": None, "aliased": [], "cb_calls": 0, "nslots": 0}
     if pattern in ("cb-identity", "cb-cached") and not has_cb:
         res["applicable"] = False
         return res
@@ -446,6 +572,13 @@ def _execute(ent: Entry, pattern: str, seed: int, sub: str = "same", protect: bo
             res["applicable"] = False
             return res
         res["aliased"] = list(st.aliased)
+    if pattern in ("list", "int-array"):
+        _apply_intseq(kwargs, st)
+        res["nslots"] = st.nslots
+        if not st.converted:
+            res["applicable"] = False
+            return res
+        res["aliased"] = list(st.converted)
     _walk(kwargs, "", st, set())
     # paths start with "[<name>]" from the dict walk; tidy
     st.arrays = [(_tidy(p), a) for p, a in st.arrays]
@@ -466,6 +599,10 @@ def _execute(ent: Entry, pattern: str, seed: int, sub: str = "same", protect: bo
             st.protect_cb = True
             for _, a in st.arrays:
                 _protect(a, st)
+        if pattern == "int-array" and not sub.startswith("int32"):
+            for _, a in st.arrays:
+                if a.dtype.kind in "iu":
+                    _protect(a, st)
     exc = None
     tb_txt = ""
     old = None
@@ -480,7 +617,10 @@ def _execute(ent: Entry, pattern: str, seed: int, sub: str = "same", protect: bo
         with warnings.catch_warnings():
             warnings.simplefilter("ignore")
             with np.errstate(all="ignore"):
-                call(**kwargs)
+                if audit is None:
+                    call(**kwargs)
+                else:
+                    audit.watch(call, kwargs, st, ent, pattern)
     except KeyboardInterrupt:
         raise
     except BaseException as e:  # noqa: BLE001 - "returns (or raises)"
@@ -534,6 +674,8 @@ def _tidy(p: str) -> str:
 def _subs(pattern, ent):
     if pattern == "alias":
         return ["same"] if ent.slow else ["same", "overlap"]
+    if pattern == "int-array":
+        return ["int64-ro", "int32"]
     return ["same"]
 
 
@@ -542,8 +684,13 @@ def _run_case(ent: Entry, pattern: str, seed: int, limit: float = 60.0):
     info = {"sig": [], "exc": None, "nontrivial": False, "aliased": []}
     violations = []
     applicable = False
-    for sub in _subs(pattern, ent):
+    subs = list(_subs(pattern, ent))
+    for sub in subs:
         r = _execute(ent, pattern, seed, sub, True, limit)
+        if pattern in ("list", "int-array") and "@" not in sub and sub == subs[0] and 1 < r["nslots"] and not ent.slow:
+            # several integer sequences: also one at a time (alternating the array kind)
+            for i in range(min(r["nslots"], 4)):
+                subs.append(f"same@{i}" if pattern == "list" else f"{('int64-ro', 'int32')[(i + seed) % 2]}@{i}")
         if not r["applicable"]:
             continue
         applicable = True
@@ -662,6 +809,234 @@ def public_api():
                     elif isinstance(raw, (staticmethod, classmethod)) or inspect.isfunction(raw):
                         names.add(q)
     return sorted(names), getters
+
+
+# ----------------------------------------------------------------------------
+# parameter-level audit: which parameter of which public callable receives caller-owned data
+# ----------------------------------------------------------------------------
+_ARRAYLIKE_DOC = re.compile(r"ndarray|array|list|dict|tuple|sequence|iterable", re.I)
+_CALLABLE_DOC = re.compile(r"callable|function", re.I)
+
+
+def _public_functions():
+    """-> {qualified name: python function} for every name of public_api()."""
+    out = {}
+    for q in public_api()[0]:
+        parts = q.split(".")
+        mod = importlib.import_module(f"grid.{parts[0]}")
+        if len(parts) == 2:
+            out[q] = getattr(mod, parts[1])
+            continue
+        raw = vars(getattr(mod, parts[1]))[parts[2]]
+        if isinstance(raw, property):
+            raw = raw.fset
+        elif isinstance(raw, (staticmethod, classmethod)):
+            raw = raw.__func__
+        out[q] = inspect.unwrap(raw)
+    return out
+
+
+def _doc_params(fn) -> dict:
+    """numpydoc `Parameters` section -> {name: type text}."""
+    doc = inspect.getdoc(fn) or ""
+    m = re.search(r"^Parameters\n-+\n(.*?)(?:\n\n?[A-Z][A-Za-z ]+\n-+\n|\Z)", doc, re.S | re.M)
+    out = {}
+    if m:
+        for line in m.group(1).splitlines():
+            mm = re.match(r"^(\*{0,2}\w+(?:\s*,\s*\w+)*)\s*:\s*(.*)$", line)
+            if mm and not line.startswith(" "):
+                for n in mm.group(1).split(","):
+                    out[n.strip().lstrip("*")] = mm.group(2)
+    return out
+
+
+class ParamAudit:
+    """Watches every public callable while registry entries run (sys.setprofile) and records,
+    per (callable, parameter): the kinds of values seen, and under which patterns an object owned
+    by the caller (the very object, or an element of a caller-owned list/tuple handed over) arrived."""
+
+    def __init__(self):
+        self.funcs = _public_functions()
+        self.codes = {}
+        for q, f in self.funcs.items():
+            self.codes.setdefault(f.__code__, q)
+        self.seen = {}      # (qual, param) -> {"kinds": set, "owned": {pattern: n}, "aliased": n, "intseq": {...}}
+        self.called = {}    # qual -> number of calls
+
+    def _rec(self, q, name):
+        return self.seen.setdefault((q, name), {"kinds": set(), "owned": {}, "aliased": 0, "intseq": set(),
+                                                "entries": set()})
+
+    def watch(self, call, kwargs, st, ent, pattern):
+        owned = {id(a) for _, a in st.arrays} | {id(c) for _, c in st.containers}
+        objs = set()
+        for v in _iter_values(kwargs):
+            if _is_lib_obj(v):
+                objs.add(id(v))
+        # ids of objects shared by two argument slots (pattern alias, sub-case `same`)
+        counts = {}
+        for v in _iter_values(kwargs):
+            if isinstance(v, np.ndarray):
+                counts[id(v)] = counts.get(id(v), 0) + 1
+        shared = {i for i, c in counts.items() if c > 1}
+        codes = self.codes
+
+        def prof(frame, event, arg):
+            if event != "call":
+                return
+            q = codes.get(frame.f_code)
+            if q is None:
+                return
+            self.called[q] = self.called.get(q, 0) + 1
+            co = frame.f_code
+            n = co.co_argcount + co.co_kwonlyargcount
+            names = list(co.co_varnames[:n])
+            extra = n
+            if co.co_flags & inspect.CO_VARARGS:
+                names.append(co.co_varnames[extra])
+                extra += 1
+            if co.co_flags & inspect.CO_VARKEYWORDS:
+                names.append(co.co_varnames[extra])
+            loc = frame.f_locals
+            for nm in names:
+                if nm in ("self", "cls"):
+                    continue
+                v = loc.get(nm)
+                rec = self._rec(q, nm)
+                rec["kinds"].add(_value_kind(v))
+                direct = id(v) in owned or id(v) in objs
+                elems = []
+                if isinstance(v, (list, tuple)):
+                    elems = list(v)
+                elif isinstance(v, dict):
+                    elems = list(v.values())
+                if not direct and any(id(e) in owned or id(e) in objs for e in elems):
+                    direct = True
+                if direct:
+                    rec["owned"][pattern] = rec["owned"].get(pattern, 0) + 1
+                    rec["entries"].add(ent.id)
+                    if pattern == "alias" and (id(v) in shared or any(id(e) in shared for e in elems)
+                                               or any("overlapping" in a for a in st.aliased)):
+                        rec["aliased"] += 1
+                    if _intseq_depth(v):
+                        rec["intseq"].add("list" if isinstance(v, (list, tuple)) else f"array-{v.dtype.name}")
+
+        old = sys.getprofile()
+        sys.setprofile(prof)
+        try:
+            call(**kwargs)
+        finally:
+            sys.setprofile(old)
+
+    def report(self) -> dict:
+        """-> dict(parameters=[…], holes=[…]) ; a hole is a parameter that is documented as / was
+        seen as an array, list, dict (or a callable) and never received a caller-owned object."""
+        rows, holes = [], []
+        for q, f in sorted(self.funcs.items()):
+            try:
+                sig = [p for p in inspect.signature(f).parameters if p not in ("self", "cls")]
+            except (TypeError, ValueError):
+                sig = []
+            doc = _doc_params(f)
+            if q.endswith(".__init__") and not doc:
+                klass = q.split(".")[1]
+                doc = _doc_params(getattr(importlib.import_module(f"grid.{q.split('.')[0]}"), klass))
+            for nm in sig:
+                rec = self.seen.get((q, nm), {"kinds": set(), "owned": {}, "aliased": 0, "intseq": set(), "entries": set()})
+                dtxt = doc.get(nm, "")
+                arraylike = bool(_ARRAYLIKE_DOC.search(dtxt)) or bool(rec["kinds"] & {"ndarray", "int-ndarray", "list", "tuple", "dict", "int-list", "object"})
+                callable_ = bool(_CALLABLE_DOC.search(dtxt)) or "callable" in rec["kinds"]
+                dint = re.sub(r"dict\[int\s*:", "dict[", dtxt, flags=re.I)
+                intseq = bool(rec["intseq"]) or bool(
+                    re.search(r"\bint\b|\bints\b", dint) and _ARRAYLIKE_DOC.search(dint) and not re.search(r"float", dint))
+                row = {"callable": q, "param": nm, "doc": dtxt[:60], "kinds": sorted(rec["kinds"]),
+                       "owned": dict(rec["owned"]), "aliased": rec["aliased"], "intseq_forms": sorted(rec["intseq"]),
+                       "arraylike": arraylike, "callable_param": callable_, "intseq": intseq,
+                       "calls": self.called.get(q, 0), "n_entries": len(rec["entries"])}
+                rows.append(row)
+                if rec["kinds"] <= {"object", "None"} and re.search(r"Transform", dtxt):
+                    continue   # radial transforms hold scalars only: nothing of the caller's to modify
+                if arraylike or callable_:
+                    missing = []
+                    if callable_ and not arraylike:
+                        if "callable" not in rec["kinds"]:
+                            missing.append("never-called-with-a-callable")
+                    else:
+                        for pat in ("rw", "ro"):
+                            if not rec["owned"].get(pat):
+                                missing.append(pat)
+                        if intseq:
+                            if "list" not in rec["intseq"]:
+                                missing.append("int-list")
+                            if not any(x.startswith("array") for x in rec["intseq"]):
+                                missing.append("int-array")
+                    if missing:
+                        holes.append({"callable": q, "param": nm, "doc": dtxt[:60], "kinds": sorted(rec["kinds"]),
+                                      "missing": missing, "calls": self.called.get(q, 0)})
+        return {"parameters": rows, "holes": holes}
+
+
+def _iter_values(obj, depth=0):
+    if depth > 4:
+        return
+    if isinstance(obj, dict):
+        for v in obj.values():
+            yield v
+            yield from _iter_values(v, depth + 1)
+    elif isinstance(obj, (list, tuple)):
+        for v in obj:
+            yield v
+            yield from _iter_values(v, depth + 1)
+
+
+def _value_kind(v) -> str:
+    if v is None:
+        return "None"
+    if isinstance(v, (bool, int, float, complex, str, np.generic)):
+        return "scalar"
+    if isinstance(v, np.ndarray):
+        if v.ndim == 0:
+            return "0d-ndarray"
+        return "int-ndarray" if v.dtype.kind in "iu" else "ndarray"
+    if isinstance(v, (list, tuple)):
+        if _intseq_depth(v):
+            return "int-list"
+        return type(v).__name__
+    if isinstance(v, dict):
+        return "dict"
+    if _is_lib_obj(v):
+        return "object"
+    if callable(v):
+        return "callable"
+    return type(v).__name__
+
+
+def param_audit(levels=(0,), patterns=("rw", "ro", "alias", "list", "int-array", "cb-identity"), seed=0,
+                include_slow=True, limit=60.0) -> dict:
+    """Run every entry once per pattern under the watcher; -> ParamAudit.report()."""
+    _load_entries()
+    aud = ParamAudit()
+    errors = {}
+    for ent in _ENTRIES:
+        if ent.slow and not include_slow:
+            continue
+        for lv in levels:
+            for pattern in patterns:
+                subs = list(_subs(pattern, ent)[:1])
+                for sub in subs:
+                    try:
+                        with warnings.catch_warnings():
+                            warnings.simplefilter("ignore")
+                            r = _execute(ent, pattern, lv * LEVEL_BASE + seed, sub, True, limit, audit=aud)
+                        if pattern in ("list", "int-array") and "@" not in sub and r["nslots"] > 1:
+                            subs += [f"{sub}@{i}" for i in range(min(r["nslots"], 4))]
+                    except KeyboardInterrupt:
+                        raise
+                    except BaseException as e:  # noqa: BLE001
+                        errors[f"{ent.id}:{pattern}"] = f"{type(e).__name__}: {str(e)[:120]}"
+    rep = aud.report()
+    rep["errors"] = errors
+    return rep
 
 
 # ----------------------------------------------------------------------------
@@ -796,6 +1171,30 @@ def run(ctx, budget: str, flagged: set) -> None:
     reg["property_getters_not_enumerated"] = getters
     reg["not_covered"] = [n for n in api if n not in covered]
     reg["entry_names_unknown_to_api"] = sorted(n for n in {e.name for e in _ENTRIES} if n not in api)
+    if budget == "thorough" and not failing:
+        # parameter-level audit: does every array / list / dict / callable parameter of every public
+        # callable receive an object owned by the caller under the patterns?
+        try:
+            rep = param_audit(seed=base)
+            reg["param_audit"] = {
+                "parameters": len(rep["parameters"]),
+                "arraylike": sum(r["arraylike"] for r in rep["parameters"]),
+                "callable": sum(r["callable_param"] for r in rep["parameters"]),
+                "integer_sequences": sum(r["intseq"] for r in rep["parameters"]),
+                "integer_sequences_fed_as_list_and_array": sum(
+                    1 for r in rep["parameters"] if r["intseq"] and "list" in r["intseq_forms"]
+                    and any(x.startswith("array") for x in r["intseq_forms"])),
+                "fed_with_caller_data": {pat: sum(1 for r in rep["parameters"] if r["owned"].get(pat))
+                                         for pat in ("rw", "ro", "alias", "list", "int-array")},
+                "holes": [f"{h['callable']}({h['param']}): {h['missing']}" for h in rep["holes"]],
+            }
+            if rep["holes"]:
+                ctx.info(f"C20 registry: {len(rep['holes'])} array/list/dict parameters never receive caller-owned data: "
+                         + "; ".join(reg["param_audit"]["holes"][:8]))
+        except KeyboardInterrupt:
+            raise
+        except BaseException as e:  # noqa: BLE001 - the audit is a report, not a verdict
+            reg["param_audit"] = {"error": f"{type(e).__name__}: {str(e)[:200]}"}
     reg["n_raised"] = len(reg["raised"])
     reg["raised"] = dict(list(reg["raised"].items())[:60])
     reg["wall_s"] = round(time.time() - t0, 1)
@@ -832,6 +1231,7 @@ def _define_entries():
     _entries_ode_poisson()
     _entries_coulomb_utils()
     _entries_rtransform_onedgrid()
+    _entries_round3()
 
 
 # ---- helpers ---------------------------------------------------------------
@@ -2257,3 +2657,636 @@ def _entries_rtransform_onedgrid():
                 g = klass(n, **kw)
                 return g.points, g.weights
             return call, {}
+
+
+# ---- round 3: integer sequences the library must replace, parameters the audit found unfed,
+# ---- grid objects built by the caller, thresholds, magnitudes, method orders, special points ----
+def _entries_round3():
+    import grid.coulomb as cmod
+    import grid.utils as umod
+    from grid.angular import AngularGrid
+    from grid.atomgrid import AtomGrid
+    from grid.basegrid import Grid, LocalGrid, OneDGrid
+    from grid.becke import BeckeWeights
+    from grid.cubic import UniformGrid
+    from grid.hirshfeld import HirshfeldWeights
+    from grid.molgrid import MolGrid
+    from grid.ngrid import MultiDomainGrid
+    from grid.ode import solve_ode_bvp
+    from grid.onedgrid import GaussLegendre
+    from grid.periodicgrid import PeriodicGrid
+    from grid.poisson import interpolate_laplacian, solve_poisson_bvp, solve_poisson_ivp
+    from grid.robust_poisson import solve_poisson_robust
+    from grid.rtransform import BeckeRTransform, InverseRTransform
+
+    # -- (a) degrees / sizes that are NOT tabulated: the library has to look up the next
+    #        supported one, and a write-back of what it found changes the caller's sequence
+    UNTAB_DEG = [2, 4, 6, 8, 10, 12]        # Lebedev / design tables hold odd degrees only
+    UNTAB_SIZE = [7, 15, 27, 31, 39]        # between the tabulated sizes 6, 14, 26, 38, 50
+
+    for method in ("lebedev", "spherical"):
+        for form in ("degrees-list", "degrees-array", "degrees-tuple-as-list", "sizes-list", "sizes-array"):
+            @entry("atomgrid.AtomGrid.__init__", f"untabulated-{form}-{method}")
+            def _(rng, lv, form=form, method=method):
+                n = 3 + 2 * lv
+                kw = dict(rgrid=_oned(rng, n), center=rng.normal(0, 0.5, 3))
+                if form.startswith("degrees"):
+                    d = [int(x) for x in rng.choice(UNTAB_DEG, size=n)]
+                    kw["degrees"] = np.array(d) if form == "degrees-array" else d
+                else:
+                    z = [int(x) for x in rng.choice(UNTAB_SIZE, size=n)]
+                    kw["degrees"] = None
+                    kw["sizes"] = np.array(z) if form == "sizes-array" else z
+
+                def call(**k):
+                    g = AtomGrid(method=method, **k)
+                    return g.points, g.degrees, g.indices
+                return call, kw
+
+        for form in ("d-list", "d-array", "s-list", "s-array"):
+            @entry("atomgrid.AtomGrid.from_pruned", f"untabulated-{form}-{method}")
+            def _(rng, lv, form=form, method=method):
+                n = 5 + 3 * lv
+                r_sectors = [0.3, 0.8, 1.5]
+                d = [int(x) for x in rng.choice(UNTAB_DEG, size=4)]
+                z = [int(x) for x in rng.choice(UNTAB_SIZE, size=4)]
+                kw = dict(rgrid=_oned(rng, n), radius=float(rng.uniform(0.8, 1.5)), center=rng.normal(size=3))
+                if form == "d-list":
+                    kw.update(r_sectors=r_sectors, d_sectors=d)
+                elif form == "d-array":
+                    kw.update(r_sectors=np.array(r_sectors), d_sectors=np.array(d))
+                elif form == "s-list":
+                    kw.update(r_sectors=r_sectors, d_sectors=None, s_sectors=z)
+                else:
+                    kw.update(r_sectors=np.array(r_sectors), d_sectors=None, s_sectors=np.array(z))
+
+                def call(**k):
+                    g = AtomGrid.from_pruned(method=method, **k)
+                    return g.points, g.degrees
+                return call, kw
+
+    for form in ("d-lists", "d-arrays", "s-lists", "s-arrays"):
+        @entry("molgrid.MolGrid.from_pruned", f"untabulated-{form}")
+        def _(rng, lv, form=form):
+            atnums, atcoords, _g = _mol(rng, 0)
+            d = [[int(x) for x in rng.choice(UNTAB_DEG, size=3)] for _ in range(2)]
+            z = [[int(x) for x in rng.choice(UNTAB_SIZE, size=3)] for _ in range(2)]
+            kw = dict(atnums=atnums, atcoords=atcoords, rgrid=_oned(rng, 5 + 3 * lv), radius=[1.0, 1.2],
+                      r_sectors=[[0.5, 1.0], [0.4, 0.9]])
+            if form == "d-lists":
+                kw["d_sectors"] = d
+            elif form == "d-arrays":
+                kw["d_sectors"] = [np.array(x) for x in d]
+            elif form == "s-lists":
+                kw.update(d_sectors=None, s_sectors=z)
+            else:
+                kw.update(d_sectors=None, s_sectors=[np.array(x) for x in z])
+
+            def call(**k):
+                m = MolGrid.from_pruned(**k)
+                return m.points, m.weights
+            return call, kw
+
+    for form in ("array", "list", "array-2d"):
+        @entry("angular.AngularGrid.convert_angular_sizes_to_degrees", f"untabulated-{form}")
+        def _(rng, lv, form=form):
+            z = [int(x) for x in rng.choice(UNTAB_SIZE, size=4)]
+            sizes = {"array": np.array(z), "list": z, "array-2d": np.array(z)}[form]
+            return (lambda sizes: AngularGrid.convert_angular_sizes_to_degrees(sizes, "lebedev")), dict(sizes=sizes)
+
+    # the atomic-grid methods on a grid made from untabulated degrees (the array of degrees the
+    # caller passed is looked at again by get_shell_grid / radial_component_splines)
+    @entry("atomgrid.AtomGrid.get_shell_grid", "untabulated-degrees")
+    def _(rng, lv):
+        n = 3 + 2 * lv
+        kw = dict(rgrid=_oned(rng, n), degrees=np.array([int(x) for x in rng.choice(UNTAB_DEG, size=n)]),
+                  center=rng.normal(0, 0.3, 3))
+
+        def call(rgrid, degrees, center):
+            g = AtomGrid(rgrid, degrees=degrees, center=center)
+            a = g.get_shell_grid(0)
+            b = g.get_shell_grid(n - 1, r_sq=False)
+            fv = np.ones(g.size)
+            sp = g.radial_component_splines(fv)
+            return a.points, b.weights, g.integrate_angular_coordinates(fv), len(sp)
+        return call, kw
+
+    # -- (b) parameters that no entry fed with a caller-owned array (parameter audit)
+    def user_aim(points, atcoords, atnums, indices):
+        return np.full(len(points), 1.0 / len(atcoords))
+
+    @entry("molgrid.MolGrid.from_preset", "aim-array")
+    def _(rng, lv):
+        atnums, atcoords, _g = _mol(rng, 0)
+        kw = dict(atnums=atnums, atcoords=atcoords, preset="coarse", rgrid=_radial(rng, 6 + 4 * lv))
+        probe = MolGrid.from_preset(atnums.copy(), atcoords.copy(), "coarse", copy.deepcopy(kw["rgrid"]))
+        kw["aim_weights"] = rng.uniform(0.1, 1.0, probe.size)
+        kw["store"] = bool(rng.integers(0, 2))
+
+        def call(**k):
+            m = MolGrid.from_preset(**k)
+            return m.points, m.weights, m.aim_weights
+        return call, kw
+
+    for form in ("aim-array", "aim-callback"):
+        @entry("molgrid.MolGrid.from_pruned", form)
+        def _(rng, lv, form=form):
+            atnums, atcoords, _g = _mol(rng, 0)
+            kw = dict(atnums=atnums, atcoords=atcoords, rgrid=_oned(rng, 6 + 4 * lv), radius=1.0,
+                      r_sectors=[[0.5, 1.0], [0.4, 0.9]], d_sectors=[[3, 5, 7], [3, 7, 5]])
+            if form == "aim-array":
+                probe = MolGrid.from_pruned(atnums.copy(), atcoords.copy(), 1.0, copy.deepcopy(kw["r_sectors"]),
+                                            copy.deepcopy(kw["d_sectors"]), rgrid=copy.deepcopy(kw["rgrid"]))
+                kw["aim_weights"] = rng.uniform(0.1, 1.0, probe.size)
+            else:
+                kw["aim_weights"] = CB(user_aim)
+            kw["store"] = bool(rng.integers(0, 2))
+
+            def call(**k):
+                m = MolGrid.from_pruned(**k)
+                return m.points, m.weights, m.aim_weights
+            return call, kw
+
+    # -- (c) grid OBJECTS built by the caller and handed to a function: every array they hold is
+    #        the caller's (snapshotted / write-protected through the object)
+    def radial12(lv):
+        btf = BeckeRTransform(1e-4, 1.5)
+        g = btf.transform_1d_grid(GaussLegendre(12 + 4 * lv))
+        return OneDGrid(np.array(g.points), np.array(g.weights), (0, np.inf)), btf
+
+    def built_atom(rng, lv):
+        rgrid, btf = radial12(lv)
+        center = rng.normal(0, 0.1, 3)
+        grid = AtomGrid(rgrid, degrees=[3 if lv < 2 else 5], center=center)
+        r = np.linalg.norm(grid.points - center, axis=1)
+        fv = float(rng.uniform(0.8, 1.2)) * np.exp(-float(rng.uniform(0.8, 1.5)) * r**2)
+        return dict(grid=grid, func_vals=fv, pts=RO(np.vstack([center, center + _pts(rng, 3, scale=0.8)]))), btf, center
+
+    def built_mol(rng, lv):
+        atcoords = np.array([[0.0, 0.0, -0.7], [0.0, 0.0, 0.7]])
+        atgrids = []
+        for i in range(2):
+            rgrid, btf = radial12(lv)
+            atgrids.append(AtomGrid(rgrid, degrees=[3], center=atcoords[i].copy()))
+        grid = MolGrid(np.array([1, 1]), atgrids, BeckeWeights(), store=True)
+        fv = np.exp(-np.sum((grid.points - atcoords[0]) ** 2, axis=1)) + np.exp(-np.sum((grid.points - atcoords[1]) ** 2, axis=1))
+        return dict(grid=grid, func_vals=fv * float(rng.uniform(0.8, 1.2)),
+                    pts=RO(np.vstack([atcoords[0], _pts(rng, 3, scale=0.8)]))), btf, atcoords
+
+    for target in ("atomgrid", "molgrid"):
+        build = built_atom if target == "atomgrid" else built_mol
+
+        @entry("poisson.solve_poisson_bvp", f"{target}-object-of-the-caller", covers=["ode.solve_ode_bvp"])
+        def _(rng, lv, build=build, target=target):
+            kw, btf, _c = build(rng, lv)
+            kw["ode_params"] = {"tol": 1e-3, "max_nodes": 5000}
+            tf = InverseRTransform(btf)
+
+            def call(grid, func_vals, pts, ode_params):
+                pot = solve_poisson_bvp(grid, func_vals, tf, include_origin=(target == "atomgrid"), ode_params=ode_params)
+                return pot(pts), grid.integrate(func_vals)
+            return call, kw
+
+        @entry("poisson.solve_poisson_ivp", f"{target}-object-of-the-caller", covers=["ode.solve_ode_ivp"],
+               slow=(target == "molgrid"))
+        def _(rng, lv, build=build):
+            kw, btf, _c = build(rng, lv)
+            kw["ode_params"] = {"rtol": 1e-4, "atol": 1e-4}
+            tf = InverseRTransform(btf)
+
+            def call(grid, func_vals, pts, ode_params):
+                pot = solve_poisson_ivp(grid, func_vals, tf, r_interval=(20.0, 1e-2), ode_params=ode_params)
+                return pot(pts)
+            return call, kw
+
+        @entry("poisson.interpolate_laplacian", f"{target}-object-of-the-caller")
+        def _(rng, lv, build=build):
+            kw, btf, c = build(rng, lv)
+            c = np.atleast_2d(c)[0]
+            # evaluation points on both sides of the cut-off radius handed to the returned function
+            cut = 1e-3
+            kw["pts"] = RO(np.vstack([c, c + [0.99 * cut, 0, 0], c + [0, 1.01 * cut, 0], c + [0, 0, 100 * cut], c + [0.3, 0.2, 0.1]]))
+
+            def call(grid, func_vals, pts):
+                lap = interpolate_laplacian(grid, func_vals)
+                return lap(pts), lap(pts, cut)
+            return call, kw
+
+        @entry("robust_poisson.solve_poisson_robust", f"{target}-object-of-the-caller",
+               covers=["poisson.solve_poisson_bvp", "coulomb.coulomb_potential"])
+        def _(rng, lv, build=build, target=target):
+            kw, btf, c = build(rng, lv)
+            kw["atnums"] = np.array([1]) if target == "atomgrid" else np.array([1, 1])
+            kw["atcoords"] = np.atleast_2d(c).copy()
+            kw["ode_params"] = {"tol": 1e-3, "max_nodes": 5000}
+            kw["func_vals"] = np.abs(kw["func_vals"])
+            tf = InverseRTransform(btf)
+
+            def call(grid, func_vals, pts, atnums, atcoords, ode_params):
+                pot = solve_poisson_robust(grid, func_vals, tf, atnums, atcoords, ode_params=ode_params,
+                                           include_origin=(target == "atomgrid"))
+                return pot(pts)
+            return call, kw
+
+    for kind in ("grid", "atomgrid", "uniformgrid"):
+        @entry("utils.dipole_moment_of_molecule", f"{kind}-object-of-the-caller")
+        def _(rng, lv, kind=kind):
+            if kind == "grid":
+                n = 10 + 10 * lv
+                g = Grid(_pts(rng, n, scale=2.0), _w(rng, n))
+            elif kind == "atomgrid":
+                g = _atgrid(rng, 4 + 2 * lv, 5)
+            else:
+                g = UniformGrid(np.array([-1.0, -1.0, -1.0]), np.eye(3) * 0.5, np.array([4, 5, 4]))
+            kw = dict(grid=g, density=rng.uniform(0, 1, g.size), coords=rng.normal(size=(2, 3)), charges=np.array([1, 8]))
+            return (lambda grid, density, coords, charges: umod.dipole_moment_of_molecule(grid, density, coords, charges)), kw
+
+    @entry("basegrid.Grid.moments", "object-of-the-caller-centers-are-the-points")
+    def _(rng, lv):
+        # the centres ARE the grid's points (equal shapes: the alias pattern passes one array)
+        n = 5 + 4 * lv
+        pts = _pts(rng, n)
+        return (lambda grid, centers, func_vals: grid.moments(1, centers, func_vals, type_mom="cartesian")), dict(
+            grid=Grid(pts.copy(), _w(rng, n)), centers=pts, func_vals=rng.normal(size=n))
+
+    # -- (d) equal shapes that make the alias pattern applicable to more parameters
+    @entry("basegrid.LocalGrid.__init__", "1d")
+    def _(rng, lv):
+        n = 6 + 5 * lv
+
+        def call(points, weights, center, indices):
+            g = LocalGrid(points, weights, center, indices)
+            return g.center, g.indices, g.integrate(g.weights)
+        return call, dict(points=np.sort(rng.uniform(-1, 1, n)), weights=_w(rng, n), center=np.array(0.2), indices=np.arange(n))
+
+    for which in ("becke", "hirshfeld"):
+        @entry(f"{'becke.BeckeWeights' if which == 'becke' else 'hirshfeld.HirshfeldWeights'}.__call__", "points-are-the-nuclei")
+        def _(rng, lv, which=which):
+            natom = 2 + (lv > 0)
+            atcoords = np.array([[0.0, 0.0, -0.7], [0.0, 0.0, 0.7], [0.9, 0.3, 0.0]])[:natom] + rng.normal(0, 0.05, (natom, 3))
+            kw = dict(points=atcoords.copy(), atcoords=atcoords, atnums=np.array([1, 8, 6][:natom]),
+                      indices=np.arange(natom + 1))
+            w = BeckeWeights(order=3) if which == "becke" else HirshfeldWeights()
+            return (lambda points, atcoords, atnums, indices: w(points, atcoords, atnums, indices)), kw
+
+    for meth in ("generate_weights", "compute_weights"):
+        @entry(f"becke.BeckeWeights.{meth}", "points-are-the-nuclei")
+        def _(rng, lv, meth=meth):
+            atcoords = np.array([[0.0, 0.0, -0.7], [0.0, 0.0, 0.7]]) + rng.normal(0, 0.05, (2, 3))
+            kw = dict(points=atcoords.copy(), atcoords=atcoords, atnums=np.array([1, 8]), select=[0, 1], pt_ind=[0, 1, 2])
+            return (lambda **k: getattr(BeckeWeights(), meth)(**k)), kw
+
+    @entry("coulomb.coulomb_potential", "points-are-the-centres")
+    def _(rng, lv):
+        k = 3 + lv
+        c = _pts(rng, k)
+        kw = dict(points=c.copy(), centers_s=c, coeffs_s=rng.uniform(0.1, 1, k), alphas_s=rng.uniform(0.3, 3, k),
+                  centers_p=c.copy(), coeffs_p=rng.uniform(0.1, 1, k), alphas_p=rng.uniform(0.3, 3, k))
+        return (lambda **a: cmod.coulomb_potential(**a)), kw
+
+    @entry("periodicgrid.PeriodicGrid.__init__", "three-points-like-realvecs")
+    def _(rng, lv):
+        rv = np.eye(3) * rng.uniform(0.8, 1.5, 3) + rng.normal(0, 0.05, (3, 3))
+
+        def call(points, weights, realvecs, center):
+            g = PeriodicGrid(points, weights, realvecs, wrap=True)
+            return g.points, g.get_localgrid(center, 0.8).points
+        return call, dict(points=rng.uniform(-1.5, 2.5, (3, 3)), weights=_w(rng, 3), realvecs=rv, center=np.zeros(3))
+
+    @entry("ngrid.MultiDomainGrid.moments", "centers-are-the-points")
+    def _(rng, lv):
+        n = 3
+        pts = _pts(rng, n)
+        return (lambda grid_list, centers, func_vals: MultiDomainGrid(grid_list).moments(1, centers, func_vals)), dict(
+            grid_list=[Grid(pts.copy(), _w(rng, n))], centers=pts, func_vals=rng.normal(size=n))
+
+    @entry("ode.solve_ode_bvp", "three-nodes-like-coeffs")
+    def _(rng, lv):
+        x = np.array([0.0, 0.6, 1.5])
+        return (lambda x, fx, coeffs, bd_cond: solve_ode_bvp(x, fx, coeffs, bd_cond, tol=1e-3, max_nodes=400).x), dict(
+            x=x, fx=CB(lambda t: np.sin(t) + 1.0), coeffs=np.array([1.0, 0.5, 2.0]), bd_cond=[[0, 0, 0.0], [1, 0, 1.0]])
+
+    # -- (e) inputs next to the hard-coded thresholds of the anchored modules (class 7): both sides
+    #        within 1 % and a factor 100 (a branch that works in place must be reached)
+    for fname in ("coulomb_gaussian_s", "coulomb_gaussian_p"):
+        if not hasattr(cmod, fname):
+            continue
+
+        @entry(f"coulomb.{fname}", "around-the-small-r-threshold")
+        def _(rng, lv, fname=fname):
+            t = 1e-12
+            r = np.array([0.0, 1e-300, t / 100, 0.99 * t, t, 1.01 * t, 100 * t, 1.0])
+            rng.shuffle(r)
+            alpha = float(rng.choice([1e-12, 1.0, 1e12]))
+            return (lambda r: getattr(cmod, fname)(r, alpha)), dict(r=r)
+
+    @entry("coulomb.coulomb_potential", "points-within-the-threshold-of-a-centre")
+    def _(rng, lv):
+        c = _pts(rng, 2)
+        d = np.array([[0.99e-12, 0, 0], [0, 1.01e-12, 0], [0, 0, 1e-10], [0, 0, 0]])
+        kw = dict(points=np.vstack([c[0] + d, c[1] + d]), centers_s=c, coeffs_s=rng.uniform(0.1, 1, 2), alphas_s=rng.uniform(0.3, 3, 2),
+                  centers_p=c.copy(), coeffs_p=rng.uniform(0.1, 1, 2), alphas_p=rng.uniform(0.3, 3, 2))
+        return (lambda **a: cmod.coulomb_potential(**a)), kw
+
+    for what in ("r", "phi"):
+        for side in (0.01, 0.99, 1.01, 100.0):
+            @entry("utils.convert_derivative_from_spherical_to_cartesian", f"{what}-at-{side}-of-1e-10")
+            def _(rng, lv, what=what, side=side):
+                d = rng.normal(size=3)
+                r, t, p = float(rng.uniform(0.2, 2)), float(rng.uniform(-3, 3)), float(rng.uniform(0.1, 3))
+                if what == "r":
+                    r = side * 1e-10
+                else:
+                    p = side * 1e-10
+                vals = [np.array(float(v)) for v in (d[0], d[1], d[2], r, t, p)]
+                names = ["deriv_r", "deriv_theta", "deriv_phi", "r", "theta", "phi"]
+                return (lambda **a: umod.convert_derivative_from_spherical_to_cartesian(**a)), dict(zip(names, vals))
+
+    @entry("utils.generate_derivative_real_spherical_harmonics", "phi-around-the-pole-window")
+    def _(rng, lv):
+        w = 1e-10
+        phi = np.array([0.0, 0.01 * w, 0.99 * w, 1.01 * w, 100 * w, np.pi - 0.99 * w, np.pi - 1.01 * w, np.pi, 1.0])
+        theta = rng.uniform(-np.pi, np.pi, len(phi))
+        return (lambda theta, phi: umod.generate_derivative_real_spherical_harmonics(2 + lv, theta, phi)), dict(theta=theta, phi=phi)
+
+    for side in (0.99, 1.01, 100.0):
+        @entry("basegrid.OneDGrid.__init__", f"point-{side}e-7-outside-the-domain")
+        def _(rng, lv, side=side):
+            n = 5
+            pts = np.sort(rng.uniform(-0.9, 0.9, n))
+            pts[0] = -1.0 - side * 1e-7
+            pts[-1] = 1.0 + side * 1e-7
+            return (lambda points, weights, domain: OneDGrid(points, weights, domain).points), dict(
+                points=pts, weights=_w(rng, n), domain=(-1.0, 1.0))
+
+    for side in (0.0, 0.99, 1.01, 100.0):
+        @entry("atomgrid.AtomGrid.integrate_angular_coordinates", f"first-radius-{side}e-8",
+               covers=["atomgrid.AtomGrid.spherical_average", "atomgrid.AtomGrid.radial_component_splines"])
+        def _(rng, lv, side=side):
+            n = 4 + 2 * lv
+            pts = np.sort(rng.uniform(0.05, 3.0, n)) + np.arange(n) * 0.05
+            pts[0] = side * 1e-8
+            kw = dict(rgrid=OneDGrid(pts, _w(rng, n), (0, np.inf)), degrees=[5], center=rng.normal(0, 0.3, 3))
+            size = AtomGrid(copy.deepcopy(kw["rgrid"]), degrees=[5]).size
+            kw["func_vals"] = rng.normal(size=(2, size))
+            kw["r"] = RO(np.array([0.0, 0.5e-8, 0.5, 1.0]))
+
+            def call(rgrid, degrees, center, func_vals, r):
+                g = AtomGrid(rgrid, degrees=degrees, center=center)
+                a = g.integrate_angular_coordinates(func_vals)
+                s = g.spherical_average(func_vals[0])
+                sp = g.radial_component_splines(func_vals[1])
+                return a, s(r), [q(r) for q in sp]
+            return call, kw
+
+    for side in (0.0, 0.99, 1.01, 100.0):
+        @entry("ode.solve_ode_bvp", f"leading-coefficient-{side}e-10")
+        def _(rng, lv, side=side):
+            x = np.linspace(0.0, 1.0, 8)
+            lead = side * 1e-10
+
+            def top(t):
+                return np.where(t < 0.5, 1.0, lead) + 0.0 * t
+            return (lambda x, fx, coeffs, bd_cond: solve_ode_bvp(x, fx, coeffs, bd_cond, tol=1e-2, max_nodes=60).x), dict(
+                x=x, fx=CB(lambda t: np.sin(t) + 1.0), coeffs=[CB(lambda t: 1.0 + 0.0 * t), 0.5, CB(top)],
+                bd_cond=[[0, 0, 0.0], [1, 0, 1.0]])
+
+    # -- (f) data of extreme but legal magnitude (class 8): a normalisation / clipping step that
+    #        works in place only for tiny or huge values must be reached
+    for scale in (1e-300, 1e-50, 1e-12, 1e12, 1e150):
+        @entry("basegrid.Grid.integrate", f"values-x{scale:g}")
+        def _(rng, lv, scale=scale):
+            n = 7
+            kw = dict(points=_pts(rng, n), weights=_w(rng, n) * (scale if scale < 1 else 1.0), a=rng.normal(size=n) * scale,
+                      b=rng.normal(size=n))
+            return (lambda points, weights, a, b: Grid(points, weights).integrate(a, b)), kw
+
+        @entry("atomgrid.AtomGrid.interpolate", f"values-x{scale:g}")
+        def _(rng, lv, scale=scale):
+            n = 4
+            kw = dict(rgrid=_oned(rng, n), degrees=[5], center=rng.normal(0, 0.3, 3) + (2.0**12 if scale > 1 else 0.0))
+            size = AtomGrid(copy.deepcopy(kw["rgrid"]), degrees=[5]).size
+            kw["func_vals"] = rng.normal(size=size) * scale
+            kw["pts"] = RO(kw["center"] + _pts(rng, 3))
+
+            def call(rgrid, degrees, center, func_vals, pts):
+                g = AtomGrid(rgrid, degrees=degrees, center=center)
+                f = g.interpolate(func_vals)
+                return f(pts), f(pts, deriv=1), g.moments(1, center.reshape(1, 3), func_vals, type_mom="pure")
+            return call, kw
+
+    for shift in (2.0**10, 2.0**20):
+        @entry("becke.BeckeWeights.__call__", f"molecule-translated-by-{int(shift)}")
+        def _(rng, lv, shift=shift):
+            n = 5
+            atcoords = np.array([[0.0, 0.0, -0.7], [0.0, 0.0, 0.7]]) + shift
+            kw = dict(points=_pts(rng, 2 * n, scale=1.5) + shift, atcoords=atcoords, atnums=np.array([1, 8]),
+                      indices=np.array([0, n, 2 * n]))
+            return (lambda points, atcoords, atnums, indices: BeckeWeights()(points, atcoords, atnums, indices)), kw
+
+        @entry("periodicgrid.PeriodicGrid.get_localgrid", f"translated-by-{int(shift)}")
+        def _(rng, lv, shift=shift):
+            n = 12
+            kw = dict(points=rng.uniform(-1.5, 2.5, (n, 3)) + shift, weights=_w(rng, n),
+                      realvecs=np.eye(3) * rng.uniform(0.8, 1.5, 3), center=rng.uniform(-1, 1, 3) + shift)
+
+            def call(points, weights, realvecs, center):
+                g = PeriodicGrid(points, weights, realvecs, wrap=True)
+                return g.points, g.get_localgrid(center, 0.7).points
+            return call, kw
+
+    @entry("coulomb.coulomb_potential", "exponents-over-24-orders")
+    def _(rng, lv):
+        k = 5
+        kw = dict(points=_pts(rng, 6, scale=2.0), centers_s=_pts(rng, k), coeffs_s=np.array([1e-12, 1.0, 1e12, 1e-300, 1.0]),
+                  alphas_s=np.array([1e-12, 1e-6, 1.0, 1e6, 1e12]))
+        return (lambda **a: cmod.coulomb_potential(**a)), kw
+
+    # -- (g) two public methods of one object in either order, the caller's arrays given to the
+    #        first one must survive the second (class 10); first call with a non-default option (11)
+    for order in ("interpolate-then-average", "average-then-interpolate"):
+        @entry("atomgrid.AtomGrid.interpolate", order, covers=["atomgrid.AtomGrid.spherical_average"])
+        def _(rng, lv, order=order):
+            n = 4 + 2 * lv
+            kw = dict(rgrid=_oned(rng, n), degrees=[int(d) for d in rng.choice([3, 5], size=n)], center=rng.normal(0, 0.3, 3))
+            size = AtomGrid(copy.deepcopy(kw["rgrid"]), degrees=list(kw["degrees"])).size
+            kw["f1"] = rng.normal(size=size)
+            kw["f2"] = rng.normal(size=size)
+            kw["pts"] = RO(_pts(rng, 3))
+            kw["r"] = RO(rng.uniform(0.1, 2.0, 4))
+
+            def call(rgrid, degrees, center, f1, f2, pts, r):
+                g = AtomGrid(rgrid, degrees=degrees, center=center)
+                if order.startswith("interpolate"):
+                    f = g.interpolate(f1)
+                    s = g.spherical_average(f2)
+                else:
+                    s = g.spherical_average(f2)
+                    f = g.interpolate(f1)
+                g.get_localgrid(center, 1.0)
+                return f(pts), s(r), g.integrate(f1, f2), f(pts, deriv=1)
+            return call, kw
+
+    for order in ("setter-integrate-setter", "integrate-setter-integrate"):
+        @entry("basegrid.Grid.weights", order, covers=["basegrid.Grid.integrate", "basegrid.Grid.points"])
+        def _(rng, lv, order=order):
+            n = 8
+            def call(points, weights, w2, p2, v):
+                g = Grid(points, weights)
+                out = []
+                if order.startswith("integrate"):
+                    out.append(g.integrate(v))
+                g.weights = w2
+                out.append(g.integrate(v))
+                g.points = p2
+                g.weights = weights
+                out.append(g.integrate(v, g.weights))
+                return out
+            return call, dict(points=_pts(rng, n), weights=_w(rng, n), w2=_w(rng, n), p2=_pts(rng, n), v=rng.normal(size=n))
+
+    for store in (True, False):
+        for order in ("getitem-first", "interpolate-first"):
+            @entry("molgrid.MolGrid.get_atomic_grid", f"{order}-store-{store}",
+                   covers=["molgrid.MolGrid.__getitem__", "molgrid.MolGrid.interpolate"])
+            def _(rng, lv, store=store, order=order):
+                atnums, atcoords, atgrids = _mol(rng, lv)
+                size = sum(g.size for g in atgrids)
+                kw = dict(atnums=atnums, atgrids=atgrids, aim_weights=rng.uniform(0.2, 1.0, size), fv=rng.normal(size=size),
+                          pts=RO(_pts(rng, 3)))
+
+                def call(atnums, atgrids, aim_weights, fv, pts):
+                    m = MolGrid(atnums, atgrids, aim_weights, store=store)   # store=False first: nothing kept yet
+                    out = []
+                    steps = [lambda: m[0].points, lambda: m.get_atomic_grid(1).weights]
+                    if store:
+                        steps.append(lambda: m.interpolate(fv)(pts))
+                    if order == "interpolate-first":
+                        steps.reverse()
+                    for s in steps:
+                        out.append(s())
+                    out.append(m.integrate(fv))
+                    return out
+                return call, kw
+
+    for cache in (False, True):
+        @entry("angular.AngularGrid.__init__", f"first-call-cache-{cache}-then-the-other")
+        def _(rng, lv, cache=cache):
+            # a degree nobody asked for before in this process, first with the given `cache`
+            deg = int(rng.choice([41, 47, 53, 59]))
+            def call(first_points):
+                a = AngularGrid(deg, cache=cache)
+                b = AngularGrid(deg, cache=not cache)
+                return a.points + first_points[: 1], b.weights
+            return call, dict(first_points=np.array(AngularGrid(3, cache=cache).points))
+
+    # -- (h) special points (class 12): single-point / single-shell grids, the centre itself, points on an axis
+    @entry("basegrid.Grid.get_localgrid", "single-point-grid-centre-on-it")
+    def _(rng, lv):
+        p = _pts(rng, 1)
+        def call(points, weights, center):
+            g = Grid(points, weights)
+            lg = g.get_localgrid(center, 0.5)
+            return lg.points, g.integrate(np.ones(1)), g[0].points
+        return call, dict(points=p, weights=_w(rng, 1), center=p[0].copy())
+
+    @entry("atomgrid.AtomGrid.__init__", "single-shell-zero-radius-and-centre-far-away")
+    def _(rng, lv):
+        center = rng.normal(0, 0.3, 3) + 2.0**10
+        kw = dict(rgrid=OneDGrid(np.array([0.0]), np.array([1.0]), (0, np.inf)), degrees=np.array([4]), center=center)
+        kw["pts"] = np.vstack([center, np.zeros(3), center + [0.0, 0.0, 1.0]])
+
+        def call(rgrid, degrees, center, pts):
+            g = AtomGrid(rgrid, degrees=degrees, center=center)
+            return g.points, g.convert_cartesian_to_spherical(pts), g.convert_cartesian_to_spherical(), g.get_shell_grid(0).points
+        return call, kw
+
+    @entry("atomgrid.AtomGrid.convert_cartesian_to_spherical", "centre-origin-axis-points")
+    def _(rng, lv):
+        center = rng.normal(0, 0.5, 3)
+        kw = dict(rgrid=_oned(rng, 4), degrees=[3], center=center)
+        kw["points"] = np.vstack([center, np.zeros(3), center + [0, 0, 1.0], center - [0, 0, 1.0], center + [1.0, 0, 0]])
+        kw["new_center"] = np.zeros(3)
+
+        def call(rgrid, degrees, center, points, new_center):
+            g = AtomGrid(rgrid, degrees=degrees, center=center)
+            return g.convert_cartesian_to_spherical(points), g.convert_cartesian_to_spherical(points, new_center)
+        return call, kw
+
+    @entry("cubic.UniformGrid.closest_point", "point-on-a-node-and-outside")
+    def _(rng, lv):
+        kw = dict(origin=rng.normal(0, 0.2, 3), axes=np.diag(rng.uniform(0.2, 0.5, 3)), shape=np.array([4, 5, 4]))
+        kw["p_node"] = kw["origin"] + kw["axes"] @ np.array([1.0, 2.0, 3.0])
+        kw["p_out"] = kw["origin"] - 5.0
+
+        def call(origin, axes, shape, p_node, p_out):
+            g = UniformGrid(origin, axes, shape)
+            return g.closest_point(p_node), g.closest_point(p_out, "origin"), g.closest_point(origin)
+        return call, kw
+
+
+    # -- (i) holes shown by the in-place mutation run (harness/props/c20_sensitivity.py): branches and
+    #        argument kinds for which the IR flagged a mutant that no entry could observe
+    import grid.onedgrid as omod
+
+    for dim in (1,):
+        for wrap in (True, False):
+            @entry("periodicgrid.PeriodicGrid.points", f"setter-1d-wrap{wrap}")
+            def _(rng, lv, wrap=wrap):
+                n = 10 + 10 * lv
+                kw = dict(points=rng.uniform(-1.5, 2.5, n), weights=_w(rng, n), realvecs=np.array([float(rng.uniform(0.8, 1.5))]),
+                          new_points=rng.uniform(-1.5, 2.5, n), center=np.array(float(rng.uniform(-1, 1))))
+
+                def call(points, weights, realvecs, new_points, center):
+                    g = PeriodicGrid(points, weights, realvecs, wrap=wrap)
+                    g.get_localgrid(center, 0.5)
+                    g.points = new_points
+                    return g.frac_intvls, g.get_localgrid(center, 0.7).points
+                return call, kw
+
+    # "scalars" handed over as 0-d arrays (mutable, unlike Python numbers: `x //= n` writes into them)
+    for dim in (2, 3):
+        @entry("cubic._HyperRectangleGrid.index_to_coordinates", f"{dim}d-index-0d-array")
+        def _(rng, lv, dim=dim):
+            n = 5
+            kw = dict(origin=rng.normal(0, 0.2, dim), axes=np.diag(rng.uniform(0.2, 0.5, dim)), shape=np.array([n, n + 1, n][:dim]),
+                      index=np.array(int(rng.integers(0, 20))))
+            return (lambda origin, axes, shape, index: UniformGrid(origin, axes, shape).index_to_coordinates(index)), kw
+
+    @entry("cubic.UniformGrid.from_molecule", "spacing-extension-0d-arrays")
+    def _(rng, lv):
+        kw = dict(atcorenums=np.array([1.0, 8.0, 1.0]), atcoords=rng.normal(0, 0.8, (3, 3)), spacing=np.array(0.9),
+                  extension=np.array(1.5))
+        return (lambda **k: UniformGrid.from_molecule(rotate=bool(rng.integers(0, 2)), **k).points), kw
+
+    for cname in ("SingleTanh", "SingleExp", "SingleArcSinhExp", "TanhSinh"):
+        klass = getattr(omod, cname, None)
+        if klass is None or "h" not in inspect.signature(klass.__init__).parameters:
+            continue
+
+        @entry(f"onedgrid.{cname}.__init__", "h-0d-array")
+        def _(rng, lv, klass=klass):
+            return (lambda h: klass(11, h).points), dict(h=np.array(float(rng.uniform(0.05, 0.2))))
+
+    @entry("coulomb.coulomb_gaussian_s", "alpha-0d-array")
+    def _(rng, lv):
+        return (lambda r, alpha: cmod.coulomb_gaussian_s(r, alpha)), dict(r=rng.uniform(0.0, 3.0, 6), alpha=np.array(1.3))
+
+
+if __name__ == "__main__":
+    import json
+
+    if "--audit" in sys.argv:
+        repo = os.environ.get("GRID_REPO")
+        if repo:
+            sys.path.insert(0, os.path.join(repo, "src"))
+        rep = param_audit()
+        print(f"{len(rep['parameters'])} parameters of {len({r['callable'] for r in rep['parameters']})} public callables; "
+              f"{sum(r['arraylike'] for r in rep['parameters'])} array/list/dict, "
+              f"{sum(r['callable_param'] for r in rep['parameters'])} callable, "
+              f"{sum(r['intseq'] for r in rep['parameters'])} integer sequences; holes: {len(rep['holes'])}")
+        for h in rep["holes"]:
+            print(f"  {h['callable']}({h['param']}): missing {h['missing']}  kinds={h['kinds']} calls={h['calls']} doc={h['doc']!r}")
+        if rep["errors"]:
+            print("errors:", json.dumps(rep["errors"], indent=1)[:2000])
+        if "--json" in sys.argv:
+            open("/var/tmp/c20-param-audit.json", "w").write(json.dumps(rep, indent=1, default=sorted))
